@@ -101,6 +101,12 @@ class C19(Property):
         for n in range(0, 25):                      # short texts: every length, a few width mixes
             for comp in list(compositions(n))[:40]:
                 res.append(("exhaustive", "D S1 T5:%s F" % self.text_of(comp)))
+        # deep trees: the indentation is 2 x depth at every depth (no cap, no wrap)
+        import sys
+        sys.setrecursionlimit(max(sys.getrecursionlimit(), 20000))
+        for depth in ([31, 32, 33, 40, 70] if tier == "quick" else [31, 32, 33, 40, 63, 64, 65, 70, 129, 300]):
+            ev = ["S1"] + ["S%d" % (1 + j % 2) for j in range(depth - 1)] + ["T5:97"] + ["F"] * (depth // 2) + ["T6:233"] + ["F"] * (depth - depth // 2)
+            res.append(("corpus", "D " + " ".join(ev)))
         rng = Rng(seed + 19)
         toks = ["T5:97", "T5:", "T6:233.98", "X100", "X103", "T5:34.92.10.9", "T7:" + ".".join(["119070"] * 7),
                 "T7:" + ".".join(["97"] * 22 + ["233"] * 3), "T7:" + ".".join(["8364"] * 9)]
